@@ -101,7 +101,8 @@ class Builder:
         return {"mode": self.mode, "psize": self.psize, "two_pools": self.two, "label": self.label, "keys": self.keys, "shutdown": self.shutting,
                 "clients": list(self.order), "pool_of": {c: self.cl[c]["pool"] for c in self.order},
                 "accept": {c: self.cl[c]["accept"] for c in self.order}, "parked": dict(self.parked),
-                "backends": self.backends(), "reloads": list(self.reloads), "actions": list(self.actions)}
+                "backends": self.backends(), "reloads": list(self.reloads), "actions": list(self.actions),
+                "contended": getattr(self, "contended", 0)}
 
     # -- helpers
     def _snap(self):
@@ -250,15 +251,26 @@ class Builder:
         self.steps.append({"op": "send", "c": c, "msgs": [{"t": "X"}]})
         self._exit(c, False)
 
-    def drop(self, c, park=False):
+    def contend(self, ms=250):
+        """environment only (no model op): the map's mutex is kept busy by a foreign thread for ms milliseconds, so that
+        an access that would be skipped when the mutex is busy (try_lock) shows; lock() is merely delayed"""
+        self.steps.append({"op": "contend", "ms": ms})
+        self.steps.append({"op": "sleep", "ms": 3})
+        self.contended = getattr(self, "contended", 0) + 1
+
+    def drop(self, c, park=False, contend=False):
         self.actions.append(["drop", c, park])
+        if contend:
+            self.contend()
         self.steps.append({"op": "close", "c": c})
         self._exit(c, park)
 
-    def bad(self, c, park=False, kind="badlen"):
+    def bad(self, c, park=False, kind="badlen", contend=False):
         if kind == "bindunk" and self.mode != "transaction":
             kind = "badlen"
         self.actions.append(["bad", c, park, kind])
+        if contend:
+            self.contend()
         self.steps.append({"op": "send", "c": c, "msgs": [dict(BAD[kind], bad=kind)]})
         self._exit(c, park)
 
@@ -776,7 +788,9 @@ def random_window_program(rng, idx, big):
     v = rng.choice(victims)
     b.hook([v])
     how = rng.choice(["drop", "badlen", "bindunk"])
-    b.drop(v, park=True) if how == "drop" else b.bad(v, park=True, kind=how)
+    # every second window program: the exit happens while a foreign thread keeps the map's mutex busy
+    cont = idx % 2 == 0
+    b.drop(v, park=True, contend=cont) if how == "drop" else b.bad(v, park=True, kind=how, contend=cont)
     for _ in range(rng.randint(3, 7) if not big else rng.randint(5, 12)):
         random_step(b, rng, favour=v)
     b.unpark(v)
@@ -1223,6 +1237,7 @@ def run_batch(run, wire, builders, stats, samples, distinct):
         stats["traces"] += 1
         if m.get("parked"):
             stats["window_scenarios"] += 1
+            stats["window_scenarios_under_lock_contention"] = stats.get("window_scenarios_under_lock_contention", 0) + (1 if m.get("contended") else 0)
             stats["window_cancels"] += sum(1 for k in a["cancels"] if k["owner_exiting"])
         for j, k in enumerate(a["cancels"]):
             # a distinct case = (mode, pool size, pools, the abstract situation of the key's owner, outcome, op context)
@@ -1305,7 +1320,7 @@ def check(run):
                                      "cancels_by_a_holder_of_a_replaced_pools_session": stats["cancels_holder_of_retired"],
                                      "scenarios_on_backends_with_unusual_keys": stats.get("unusual_key_scenarios", 0), "contacts_there": stats.get("unusual_key_contacts", 0),
                                      "shutdown_scenarios": stats.get("shutdown_scenarios", 0), "contacts_after_shutdown_began": stats.get("contacts_after_shutdown_began", 0),
-                                     "exit_window_scenarios": stats["window_scenarios"], "cancels_inside_exit_window": stats["window_cancels"],
+                                     "exit_window_scenarios": stats["window_scenarios"], "exit_windows_with_the_map_mutex_kept_busy": stats.get("window_scenarios_under_lock_contention", 0), "cancels_inside_exit_window": stats["window_cancels"],
                                      "hook_point_present": hook, "scenarios_rerun_after_a_problem": stats["reruns"], "problems_not_reproduced_on_rerun": stats["flaky"][:10], "code_variant": {"cancel_drop_removes": flags[0], "exit_entry_first": flags[1], "reload_prunes": flags[2], "cancel_retries": flags[3], "lookup_at_accept": flags[4], "shutdown_refuses_cancel": flags[5], "claim_needs_positive_pid": flags[6]} if flags else None}
     run.cov["transitions"] = "model ops exercised: Checkout, ReleaseNormal, Terminate, ExitDropGuard(clean|unclean), ExitDropClient, Cancel, CancelRefused, DeliverLate, CancelAccept, CancelAct, CancelDrop, Reload, Shutdown (SrvClose is never forced by these scenarios)"
     if not proof_ok and not run.violations and not run.broken:
